@@ -268,6 +268,7 @@ def run(ctx):
                   "the byte count is computed exactly (at most one truncating division, as the last step)",
                   "the result '%s' divides before it multiplies/adds: the truncated remainder is lost, so 'N%%' of a total that is not a multiple of the "
                   "divisor is up to N bytes-per-cent too low (thresholds no longer act at the configured value)" % pp.text(pp.nodes[i]["r"])[:80])
+    init_results_checked(ctx, "C12")
     # ------------------------------------------------ (iv) parser / destination agreement
     n_reg = 0
     for f in P.fns.values():
